@@ -134,9 +134,11 @@ OvAcl(g) == << Ace("permit", "ip", T("grp", g), T("any", "")) >>
 F7 ==
   \E a \in InjSeqs(GLines("g0-DRC-0", "gx"), MaxLen), b \in InjSeqs(GLines("g0", "g1"), MaxLen),
      da, ta, tb \in {{"h1"}, {"h1", "h2"}},
-     ovl \in SUBSET {"foreign-unbound", "dmz-bound", "foreign-uses-drc", "dmz-uses-gx", "route6", "dmz-out"} :
+     ovl \in SUBSET {"foreign-unbound", "dmz-bound", "foreign-uses-drc", "dmz-uses-gx", "route6", "dmz-out", "dmz-shut"} :
     \* dmz-out: the unknown interface has an outgoing access-group besides the incoming one
+    \* dmz-shut: the unknown interface is administratively shut down (its access-groups stay what they are)
     /\ ("dmz-out" \in ovl => "dmz-bound" \in ovl \/ "dmz-uses-gx" \in ovl)
+    /\ ("dmz-shut" \in ovl => "dmz-bound" \in ovl \/ "dmz-uses-gx" \in ovl)
     /\ (("g0" \notin UsedGroups(b)) => ta = {"h1"}) /\ (("g1" \notin UsedGroups(b)) => tb = {"h1"})
     /\ LET gxm == {"h2", "n34"}
            acls == [n \in {"inside_in"}
@@ -152,7 +154,7 @@ F7 ==
                     \cup (IF "dmz_out" \in DOMAIN acls THEN {B("dmz_out", "dmz", "out")} ELSE {})
            routes == IF "route6" \in ovl THEN {[fam |-> "6", if |-> "inside", dst |-> "n12", gw |-> "gA"]} ELSE {}
        IN /\ dev = Cfg(acls, [n \in {"g0-DRC-0", "gx"} |-> IF n = "gx" THEN G(gxm) ELSE G(da)],
-                       binds, routes, {"inside", "dmz"})
+                       binds, routes, {"inside", "dmz"}) @@ [shut |-> IF "dmz-shut" \in ovl THEN {"dmz"} ELSE {}]
           /\ tgt = Cfg([inside_in |-> b], [n \in UsedGroups(b) |-> IF n = "g0" THEN G(ta) ELSE G(tb)],
                        {B("inside_in", "inside", "in")}, {}, {})
 
